@@ -9,7 +9,8 @@
 
    kind  : what the packet is — "udp" | "tcp" | "echo-reply" | "tr-reply" | "err-udp" (SCMP error
            quoting a UDP packet) | "err-echo" | "err-tr" (SCMP error quoting an echo / traceroute
-           request) | "echo-request" | "tr-request" | "other-l4"
+           request) | "echo-request" | "tr-request" | "other-l4" | "err-cut-noport" | "err-cut-port" |
+           "err-tcp" (see NoPort / Partial below)
    field : the port / identifier that kind carries
    [lo, hi] : the range in force (RouterConfigOps!Effective of topology value and override)      *)
 EXTENDS RouterConfigOps
@@ -17,7 +18,13 @@ EXTENDS RouterConfigOps
 Derives   == {"udp", "tcp", "echo-reply", "tr-reply", "err-udp"}   \* the statement's list
 QuotedId  == {"err-echo", "err-tr"}   \* design document: quoted identifier; not in the statement
 Defaults  == {"echo-request", "tr-request", "other-l4"}
-Kinds     == Derives \cup QuotedId \cup Defaults
+\* SCMP errors whose quote is cut short: "err-cut-noport" the quoted packet ends before the two bytes of
+\* the UDP source port, "err-cut-port" the source port is there but the UDP header is incomplete;
+\* "err-tcp" an error quoting a TCP segment.  The statement names no port for them: such packets may be
+\* dropped; if delivered, only the default port (or, where a source port is present, its Final) will do.
+NoPort    == {"err-cut-noport"}
+Partial   == {"err-cut-port", "err-tcp"}
+Kinds     == Derives \cup QuotedId \cup Defaults \cup NoPort \cup Partial
 
 InRange(p, lo, hi) == lo <= p /\ p <= hi
 Final(p, lo, hi) == IF InRange(p, lo, hi) THEN p ELSE EndhostPort
@@ -28,7 +35,7 @@ Final(p, lo, hi) == IF InRange(p, lo, hi) THEN p ELSE EndhostPort
    request, the quoted identifier (design document) or the default port are both accepted.       *)
 AllowedPorts(kind, field, lo, hi) ==
     IF kind \in Derives THEN {Final(field, lo, hi)} \cup (IF field = 0 /\ lo = 0 THEN {EndhostPort} ELSE {})
-    ELSE IF kind \in QuotedId THEN {Final(field, lo, hi), EndhostPort}
+    ELSE IF kind \in QuotedId \cup Partial THEN {Final(field, lo, hi), EndhostPort}
     ELSE {EndhostPort}
 
 PortWhy(kind, field, lo, hi, got) ==
